@@ -237,7 +237,8 @@ def r34(ctx, F, hub):
             for cb, ct in fl.calls_to('std::io::copy'):
                 if cb not in only_refusal:
                     continue
-                so = fl.origins(ct['args'][0])
+                from rules.C12 import reader_sources
+                so = reader_sources(fl, ct['args'][0])
                 for o in so:
                     if o.kind == 'call' and o.key == 'std::io::Read::take':
                         lo = call_arg_origins(fl, o.bb, 1)
